@@ -777,6 +777,14 @@ func constKeys(v ssa.Value) ([]string, bool) {
 	if u, ok := v.(*ssa.UnOp); ok && u.Op == token.MUL {
 		if ia, ok := u.X.(*ssa.IndexAddr); ok {
 			var sl ssa.Value = ia.X
+			// a package-level table of names, set once at initialisation and never changed
+			if ld, isLd := sl.(*ssa.UnOp); isLd && ld.Op == token.MUL {
+				if gl, isG := ld.X.(*ssa.Global); isG && gl.Pkg != nil {
+					if init, okI := globalSingleInit(gl); okI {
+						sl = init
+					}
+				}
+			}
 			el := variadicElems(sl)
 			if len(el) == 0 {
 				if s, ok := sl.(*ssa.Slice); ok {
